@@ -518,7 +518,10 @@ class Schema(dict, metaclass=LogicalMeta):
                 raise exc.DeleteError(
                     f"{self.__name__}: Attempt to delete required schema key: {repr(key)}"
                 )
-        return super().clear()
+        super().clear()
+        for field in self.__parser__.fields.values():
+            # the attribute view is cleared as well
+            self.__dict__.pop(field.attname, None)
 
 
 DataClass.__init_subclass__()
